@@ -317,7 +317,9 @@ func (g *Gen) execInstr(st *State, in ssa.Instruction) {
 				if tv, ok := v.(TupleV); ok {
 					results = tv.E
 				} else {
-					results = []Val{v}
+					// the one-result form `m[k]` does not say whether the key is present: the clause's second
+					// result name (if any) stands for an unknown boolean
+					results = []Val{v, BoolV{g.fresh("mapok", "Bool")}}
 				}
 				ctx := &specCtx{g: g, st: st, old: st, binds: binds, results: results, resultNames: cs.Results, oldIsPre: true}
 				for _, c := range cs.Ensures {
@@ -992,7 +994,14 @@ func (g *Gen) execReturn(st *State, r *ssa.Return) {
 	}
 	ctx := &specCtx{g: g, st: st, old: g.entry, results: results, resultNames: g.resultNames(), paramsEntry: true}
 	for _, c := range g.spec.Ensures {
-		goal := g.evalGoal(ctx, c.E)
+		if g.driftedInv[c] {
+			continue
+		}
+		// a postcondition over a local the changed code no longer has (a loop that was removed ...) is contract drift
+		goal, ok := g.evalGoalOrDrift(ctx, c, "postcondition")
+		if !ok {
+			continue
+		}
 		g.oblige(st, "ensures", c.ID, "postcondition "+c.Src, goal)
 	}
 }
